@@ -153,7 +153,7 @@ def check_c05(tier, seed):
     merged = Merged()
     lib = mkbuild("shipped").build(st)
     run_mc(st, lib, "h_ctr.c", "c05", tier, seed, merged, v, nshards=26)
-    closed = all(val == 1 for k, val in merged.notes.items() if k.startswith("frontier_exhausted"))
+    closed = all(val == 0 for k, val in merged.notes.items() if k.startswith("kinds_cut_by_depth_cap"))
     cov = mc_cov(merged,
                  "BFS over CTR call histories {init, set_key|set_tweaked_key, set_tweak, set_counter, encrypt(len), second set_counter} "
                  "on real objects of every available back end in lock step; states merged by context byte image + model state; "
@@ -172,7 +172,7 @@ def check_c06(tier, seed):
     merged = Merged()
     lib = mkbuild("shipped").build(st)
     run_mc(st, lib, "h_ctr.c", "c06", tier, seed, merged, v, nshards=26)
-    closed = all(val == 1 for k, val in merged.notes.items() if k.startswith("frontier_exhausted"))
+    closed = all(val == 0 for k, val in merged.notes.items() if k.startswith("kinds_cut_by_depth_cap"))
     cov = mc_cov(merged,
                  "BFS over CTR call histories on one object per available back end in lock step; the C05 alphabet widened with "
                  "key / tweaked-key / tweak changes in the middle of a stream without a counter reset, data calls before any key, "
@@ -190,7 +190,7 @@ def check_c14(tier, seed):
     merged = Merged()
     lib = mkbuild("shipped").build(st)
     run_mc(st, lib, "h_ctr.c", "c14", tier, seed, merged, v, nshards=26)
-    closed = all(val == 1 for k, val in merged.notes.items() if k.startswith("frontier_exhausted"))
+    closed = all(val == 0 for k, val in merged.notes.items() if k.startswith("kinds_cut_by_depth_cap"))
     cov = mc_cov(merged,
                  "BFS over valid CTR histories (zeroed handle, initialised, keyed, counter set, mid-stream, cleaned up) with every class of invalid "
                  "call applied in every state; oracle: invalid call returns 0, handle+context byte image identical before/after, allocator slack untouched, "
